@@ -78,6 +78,44 @@ def self_writes(fn):
   return out
 
 
+def instance_bound(repo, cls, attr):
+  """None when every constructed object gets its own `attr` (an unconditional `self.attr = <fresh value>` in the constructor); else the reason."""
+  init = repo.find_method(cls, "__init__")
+  fresh = False
+  if init is not None:
+    params = {a.arg for a in init.node.args.args + init.node.args.kwonlyargs}
+    body = list(init.node.body)
+    for st in init.node.body:        # helpers called unconditionally from the constructor (self._Reset()) count as part of it
+      if isinstance(st, ast.Expr) and isinstance(st.value, ast.Call) and isinstance(st.value.func, ast.Attribute) and isinstance(st.value.func.value, ast.Name) \
+         and st.value.func.value.id == "self":
+        h = repo.find_method(cls, st.value.func.attr)
+        if h is not None:
+          body += list(h.node.body)
+    for st in body:
+      tg = st.targets if isinstance(st, ast.Assign) else [st.target] if isinstance(st, ast.AnnAssign) and st.value is not None else []
+      for t in [x for t_ in tg for x in (t_.elts if isinstance(t_, (ast.Tuple, ast.List)) else [t_])]:
+        if isinstance(t, ast.Attribute) and isinstance(t.value, ast.Name) and t.value.id == "self" and t.attr == attr:
+          v = st.value
+          shared = [n for n in ast.walk(v) if isinstance(n, ast.Attribute) and isinstance(n.value, ast.Name) and n.value.id in (cls.name, "cls")] + \
+                   [n for n in ast.walk(v) if isinstance(n, ast.Call) and isinstance(n.func, ast.Name) and n.func.id == "type"]
+          if isinstance(v, ast.Name) and v.id in params:
+            d = dict(zip([a.arg for a in init.node.args.args][::-1], init.node.args.defaults[::-1]))
+            if isinstance(d.get(v.id), (ast.Dict, ast.List, ast.Set)):
+              return "self.%s is the constructor's mutable default argument: one object shared by every instance built without that argument" % attr
+          if shared:
+            return "self.%s is bound to a class-level object in the constructor: shared by every instance" % attr
+          fresh = True
+  if fresh:
+    return None
+  for k in repo.mro(cls):
+    for st in k.node.body:
+      tg = st.targets if isinstance(st, ast.Assign) else [st.target] if isinstance(st, ast.AnnAssign) and st.value is not None else []
+      if any(isinstance(t, ast.Name) and t.id == attr for t in tg):
+        return "`%s` is a class attribute of %s (%s) that the constructor never rebinds: the state written through self.%s is shared by all instances (all curves of CURVE_FACTORY)" % (
+            attr, k.name, norm(st)[:50], attr)
+  return "self.%s is not bound unconditionally in the constructor" % attr
+
+
 def rule_stateless(ctx):
   R = "R-C17-STATELESS"
   repo = ctx.repo
@@ -96,7 +134,14 @@ def rule_stateless(ctx):
       ctx.violation(R, fn.where, norm(node), "%s state self.%s is written outside __init__: later batches would see what earlier ones left behind" % (what, attr))
   for key, reason in ALLOWED_SELF_WRITES.items():
     if key in seen_allowed:
-      ctx.ok(R, key[0], "self.%s" % key[1], "frozen exception: " + reason)
+      # the excepted state must be per object: bound afresh by the constructor, not a class attribute shared by every instance
+      # (the curves of CURVE_FACTORY are module-level singletons of one class: a shared memo hands one curve the points of another)
+      fn = [f_ for f_ in repo.all_funcs() if f_.where == key[0]][0]
+      why = instance_bound(repo, fn.cls, key[1])
+      if why is None:
+        ctx.ok(R, key[0], "self.%s" % key[1], "frozen exception: " + reason)
+      else:
+        ctx.violation(R, key[0], "self.%s" % key[1], why)
   # module-level state: `global` statements and mutation of module-level containers
   n_scan = 0
   for m in repo.modules.values():
